@@ -422,6 +422,16 @@ class C03(core.Check):
         from ..impl import wsgi
         qs, body, _ = self.wire(c)
         app = self.app_for(c.get('override'))
+        # unrelated traffic in between (the parameters of a request do not depend on what the process served
+        # before): bodies of other media types with and without a charset, a failing request
+        self._between = getattr(self, '_between', 0) + 1
+        if self._between % 7 == 3:
+            hs, b = [(('Content-Type', 'text/plain'),), b'plain text \xe9'], None
+            for ct, bb in (('text/plain', b'plain text \xe9'), ('text/html; charset=utf-16', b'\xff\xfea\x00'),
+                           ('application/octet-stream', b'\x00\x01')):
+                wsgi.call(app, 'POST', b'/', [('Content-Type', ct), ('Content-Length', str(len(bb)))], bb)
+            wsgi.call(app, 'GET', b'/no/such/page')
+            self.count('unrelated requests in between')
         del self.seen[:]
         target = b'/' if qs is None else b'/?' + qs
         if body is None:
